@@ -127,42 +127,56 @@ def judge(ports, evs, expected, tables, R, case, family=False):
 
 
 def run_family(spec, R, mon):
-    from osaca.parser import get_parser
-    from osaca.semantics import ArchSemantics, MachineModel
+    """The bounded family goes through the real CLI entry point (osaca.osaca.run -> inspect), because the statement is about the
+    *reported* bottleneck: the family model is placed as csx.yml in a private data directory that is searched first."""
+    import osaca.utils as utils
 
     m, forms = family_model()
+    m["arch_code"] = "CSX"
     _, kernels = family_kernels()
     text = gen_model.model_yaml(m)
     with gen_model.ScratchDir("c02") as d:
-        path = os.path.join(d, "fam.yml")
-        with open(path, "w") as f:
+        with open(os.path.join(d, "csx.yml"), "w") as f:
             f.write(text)
-        mm = MachineModel(path_to_yaml=path)
-        sem = ArchSemantics(mm)
-        parser = get_parser("x86")
-        for idx, combo in enumerate(kernels):
-            if idx % spec["parts"] != spec["part"]:
-                continue
-            ktext = "".join("fam%da %%r%d, %%r%d\n" % (i, 8 + j, 12 + (j % 4)) for j, i in enumerate(combo))
-            case = {"kind": "family", "combo": list(combo)}
-            try:
-                evs = W.three_configs(sem, parser, ktext, mon)
-            except Exception as e:  # noqa
-                R.exception(e, case)
-                R.case()
-                continue
-            expected = [[ref_sched.norm_uops([[forms[i][0], "".join(forms[i][1])]])] for i in combo]
-            nt = judge(["0", "1", "2"], evs, expected, None, R, case, family=True)
-            R.case(digest(["family", combo]), nontrivial=nt)
-            R.count("family_kernels")
-            if len(combo) == 4:
-                R.count("family_len4")
-            if any(forms[i][0] == 2 for i in combo):
-                R.count("family_2cycle")
-            if idx % 997 == 0:
-                R.sample({"kind": "family", "kernel": [[forms[i][0], "".join(forms[i][1])] for i in combo],
-                          "uniform": bottleneck(evs["uniform"]), "twice": bottleneck(evs["twice"]),
-                          "optimum": ref_sched.optimum_with_alternatives(summed_choices(evs, expected))}, limit=3)
+        old_dirs = list(utils.DATA_DIRS)
+        utils.DATA_DIRS.insert(0, d)
+        try:
+            kfile = os.path.join(d, "k.s")
+            for idx, combo in enumerate(kernels):
+                if idx % spec["parts"] != spec["part"]:
+                    continue
+                ktext = "".join("fam%da %%r%d, %%r%d\n" % (i, 8 + j, 12 + (j % 4)) for j, i in enumerate(combo))
+                case = {"kind": "family", "combo": list(combo)}
+                with open(kfile, "w") as f:
+                    f.write(ktext)
+                mon.take()
+                try:
+                    W.run_cli(["--arch", "csx", "--lcd-timeout", "-1", kfile])
+                except Exception as e:  # noqa
+                    R.exception(e, case)
+                    R.case()
+                    continue
+                ev = mon.take()
+                if not ev or ev[0][0] != "uniform" or len(ev) < 2:
+                    R.violation("cli/no-optimisation", "default CLI run performed %r" % [e[0] for e in ev], case)
+                    R.case()
+                    continue
+                R.count("family_cli_passes:%d" % (len(ev) - 1))
+                evs = {"uniform": ev[0], "once": ev[1], "twice": ev[-1]}
+                expected = [[ref_sched.norm_uops([[forms[i][0], "".join(forms[i][1])]])] for i in combo]
+                nt = judge(["0", "1", "2"], evs, expected, None, R, case, family=True)
+                R.case(digest(["family", combo]), nontrivial=nt)
+                R.count("family_kernels")
+                if len(combo) == 4:
+                    R.count("family_len4")
+                if any(forms[i][0] == 2 for i in combo):
+                    R.count("family_2cycle")
+                if idx % 997 == 0:
+                    R.sample({"kind": "family", "kernel": [[forms[i][0], "".join(forms[i][1])] for i in combo],
+                              "uniform": bottleneck(evs["uniform"]), "reported": bottleneck(evs["twice"]),
+                              "optimum": ref_sched.optimum_with_alternatives(summed_choices(evs, expected))}, limit=3)
+        finally:
+            utils.DATA_DIRS[:] = old_dirs
 
 
 def run_synth(spec, R, mon):
@@ -261,15 +275,10 @@ def replay(case, R):
     try:
         with gen_model.ScratchDir("c02r") as d:
             if case["kind"] == "family":
-                m, forms = family_model()
-                path = os.path.join(d, "fam.yml")
-                open(path, "w").write(gen_model.model_yaml(m))
-                mm = MachineModel(path_to_yaml=path)
-                combo = case["combo"]
-                ktext = "".join("fam%da %%r%d, %%r%d\n" % (i, 8 + j, 12 + (j % 4)) for j, i in enumerate(combo))
-                evs = W.three_configs(ArchSemantics(mm), get_parser("x86"), ktext, mon)
-                expected = [[ref_sched.norm_uops([[forms[i][0], "".join(forms[i][1])]])] for i in combo]
-                judge(["0", "1", "2"], evs, expected, None, R, case, family=True)
+                _, kernels = family_kernels()
+                idx = kernels.index(tuple(case["combo"]))
+                run_family({"parts": len(kernels), "part": idx}, R, mon)
+                return
             elif case["kind"] == "synth":
                 mrng = random.Random(case["model_seed"])
                 m, meta = gen_model.port_model(mrng, case["isa"])
